@@ -28,7 +28,7 @@ def make_pools(mk, spec) -> Dict[str, List[Any]]:
             need.add("t")
         if sel[0] == "d":
             need.add("d")
-    extra = tuple(e for e in ("f", "t", "d", "s") if e in need)
+    extra = tuple(e for e in ("f", "t", "d", "s", "sl") if e in need)
     order = list(spec["pools"].keys())
     # pools referenced by others must exist first
     refs = spec.get("refs", {})
